@@ -1,23 +1,30 @@
 ------------------------------- MODULE Url -------------------------------
-(* Property C14: urllib3.util.url.parse_url is total, canonical, and agrees with RFC 3986 on    *)
-(* what the host is.                                                                            *)
+(* Properties C14 and C15 of urllib3's URL handling.                                            *)
+(*                                                                                              *)
+(* C14: urllib3.util.url.parse_url is total, canonical, and agrees with RFC 3986 on what the    *)
+(* host is.  C15: what a PoolManager puts on the wire is exactly what the URL says.             *)
 (*                                                                                              *)
 (* Strings are sequences of Unicode code points (integers), so the same operators judge the     *)
-(* exhaustive 12/13-symbol alphabet and arbitrary unicode inputs.                               *)
+(* exhaustive 12/13-symbol alphabet, the URL shapes of C15 and arbitrary unicode inputs.        *)
 (*                                                                                              *)
-(*   RULES  (the property):                                                                     *)
+(*   RULES  (the properties):                                                                   *)
 (*     Ref(s)            the independent RFC 3986 reading of s: scheme, authority (ends at the   *)
 (*                       first '/', '?', '#' or backslash), userinfo (before the LAST '@'),      *)
 (*                       host, port (after the last ':' outside brackets), path, query, fragment *)
+(*                       (RefAuthority(s) = its (userinfo, host, port) projection)               *)
 (*     IsNormalForm(u)   lower-case scheme/host, port range, no dot segments, only RFC 3986      *)
 (*                       characters with upper-case escapes                                     *)
-(*     Verdict(e)        total monitor of one observed parse (+ re-parse of its string form):    *)
-(*                       names the first failing clause or "ok"                                  *)
+(*     Verdict(e)        C14: total monitor of one observed parse (+ re-parse of its string      *)
+(*                       form): names the first failing clause or "ok"                           *)
+(*     WireClauses(o)    C15: total monitor of one observed request (dial address, Host header,  *)
+(*                       TLS server name, request target, variants): the SET of failing clauses  *)
 (*   MODEL  (what urllib3 does, on the part of the domain where that is fixed):                  *)
 (*     ModelParse(s)     the Url the model predicts / "lpe" / "unknown"                          *)
+(*     WireOf(R, px, P)  the canonical wire image of the URL read as R (proxy mode px)           *)
 (*   Stage 1 (TLC, every string over Alphabet up to MaxLen): the reference is well defined       *)
-(*   (Recompose, delimiters, first/last characterisations), the encoder is sound, and            *)
-(*   Model |= Rules  (Verdict(ModelEvent(s)) = "ok").                                            *)
+(*   (Recompose, delimiters, first/last characterisations), the encoder is sound, dot removal    *)
+(*   is RFC 3986 5.2.4, and Model |= Rules  (Verdict(ModelEvent(s)) = "ok").  Stage 1 for C15    *)
+(*   is in MC_Url.tla (URL shapes): the four derivations agree, variants share key and image.    *)
 EXTENDS Integers, Sequences, FiniteSets, TLC
 
 CONSTANTS Alphabet,   \* set of code points the enumeration appends
